@@ -1740,21 +1740,29 @@ fn tvfs_nesting_cases(c: &mut Ctx, rng: &mut Rng, thorough: bool) {
         c.case("tvfs", "empty", &[Edit::App(d)], kind);
         c.s.tally(&format!("tvfs-nest-levels:{}", match shapes.len() { 0..=510 => "<511", 511..=514 => "511..514", _ => ">514" }));
     };
-    let near: &[usize] = if thorough { &[1, 2, 255, 256, 510, 511, 512, 513, 514, 515, 1024] } else { &[511, 512, 513, 514] };
+    let near: &[usize] = if thorough { &[1, 2, 255, 256, 510, 511, 512, 513, 514, 515, 1024] } else { &[512, 513] };
+    let variants = [(true, false), (false, true), (true, true)];
     for sh in 0..ns {
         for &l in near {
             run(c, &vec![sh; l], false, false, "tvfs-nest-one");
         }
         // named folders make the joined path grow with the depth: keep the far case moderate
         run(c, &vec![sh; if thorough { 30_000 } else { 3_000 }], false, false, "tvfs-nest-one");
-        for (b, a) in [(true, false), (false, true), (true, true)] {
-            for l in [512usize, 513] {
-                run(c, &vec![sh; l], b, a, "tvfs-nest-sibling");
+        // file siblings before / after / around the folder (quick tier: one arrangement per shape, rotating)
+        for (vi, (b, a)) in variants.iter().enumerate() {
+            if thorough || vi == sh % 3 {
+                for l in [512usize, 513] {
+                    run(c, &vec![sh; l], *b, *a, "tvfs-nest-sibling");
+                }
             }
         }
         c.s.tally(&format!("tvfs-nest-shape:{}", TVFS_FOLDER_SHAPES[sh].0));
     }
-    for t in 0..if thorough { 60 } else { 12 } {
+    if !thorough {
+        run(c, &vec![0; 511], false, false, "tvfs-nest-one");
+        run(c, &vec![0; 514], false, false, "tvfs-nest-one");
+    }
+    for t in 0..if thorough { 60 } else { 6 } {
         for l in [512usize, 513, 514] {
             let shapes: Vec<usize> = (0..l).map(|_| rng.below(ns as u64) as usize).collect();
             run(c, &shapes, t % 3 == 1, t % 3 == 2, "tvfs-nest-mix");
